@@ -81,9 +81,49 @@ def c18_pop_default():
     return None if (r is None and list(p.objects) == [None, 2]) else f"pop('nokey', None) -> {r!r}, objects now {list(p.objects)}, names {p.names}"
 
 
+def c05_class_trigger_inherited_event():
+    """083638b: Sub.param.trigger('e') / Sub.param.update(e=True) on a class that inherits the Event"""
+    class Base(param.Parameterized):
+        e = param.Event()
+        x = param.Integer(0, bounds=(0, 5))
+    class Sub(Base):
+        pass
+    log = []
+    Sub.param.watch(lambda ev: log.append(ev.new), 'e')
+    try:
+        Sub.param.update(x=99, e=True)          # rejected
+    except ValueError:
+        pass
+    Sub.e = True                                # must fire the watcher and reset itself
+    stuck_sub = (log != [True]) or Sub.e is not False
+    class Sub2(Base):
+        pass
+    Sub2.param.trigger('e')                     # successful
+    Base.e = True
+    stuck_base = Base.e is not False            # the ancestor's Event must still reset itself
+    if stuck_sub or stuck_base:
+        return f"after a rejected Sub.param.update(x=99, e=True): Sub.e=True fired {log}, reads {Sub.e}; after Sub2.param.trigger('e'): Base.e=True reads {Base.e}"
+    return None
+
+
+def c02_rejected_class_assignment_copy():
+    """1e41598: `B.x = bad` copied the inherited Parameter into B before validating"""
+    class A(param.Parameterized):
+        x = param.Integer(1, bounds=(0, 10))
+    class B(A):
+        pass
+    try:
+        B.x = 'bad'
+    except ValueError:
+        pass
+    A.x = 5
+    return None if B.x == 5 and 'x' not in B.__dict__ else f"after the rejected B.x = 'bad': A.x = 5 gives B.x == {B.x} (B has its own copy: {'x' in B.__dict__})"
+
+
 if __name__ == '__main__':
     for f in [c03_slot_watcher_list_mutated, c03_slot_watcher_registered_in_callback, c16_selector_schema_unnamed_object,
-              c18_remove_equal_not_identical, c18_extend_iterator, c18_update_mapping, c18_pop_default]:
+              c18_remove_equal_not_identical, c18_extend_iterator, c18_update_mapping, c18_pop_default,
+              c05_class_trigger_inherited_event, c02_rejected_class_assignment_copy]:
         try: r = f()
         except Exception as e: r = f'demo crashed: {type(e).__name__}: {e}'
         print(f'{f.__name__:44s}', 'DEFECT: ' + r if r else 'ok')
